@@ -606,7 +606,7 @@ pub fn run(suite: &str, thorough: bool, seed: u64, shard: usize, nshards: usize,
         }
         // C15/C16/C17: traversal, position lookup and names over validated random projects
         "walk" | "walkpos" => {
-            let n = share(if thorough { 4000 } else { 120 });
+            let n = share(if thorough { 4000 } else if suite == "walk" { 480 } else { 120 });
             for _ in 0..n {
                 let s = rng.next();
                 let mut r = Rng::new(s);
@@ -763,6 +763,33 @@ pub fn run(suite: &str, thorough: bool, seed: u64, shard: usize, nshards: usize,
                     }
                 }
             }
+            // replace a big content by one of the same length that differs only near its end (a change
+            // detector that samples the head, a length, or a truncated hash would miss it)
+            for size in [3000usize, 5000, 9000, 17000, 70000, 140000] {
+                idx += 1;
+                if !mine(idx) {
+                    continue;
+                }
+                let mk = |last: &str| -> String {
+                    let mut t = String::from("package p;\ninterface A {\n");
+                    let mut k = 0usize;
+                    while t.len() < size {
+                        t.push_str(&format!("    void m{}(in int a);\n", k));
+                        k += 1;
+                    }
+                    t.push_str(&format!("    void {}(in Q q);\n}}\n", last));
+                    t
+                };
+                let (c1, c2) = (mk("tailA"), mk("tailB"));
+                let ops = vec![
+                    HOp::Add("i1".to_owned(), c1.clone()),
+                    HOp::Validate,
+                    HOp::Add("i1".to_owned(), c2.clone()),
+                    HOp::AddFile("big2.aidl".to_owned(), Some(c1.into_bytes())),
+                    HOp::AddFile("big2.aidl".to_owned(), Some(c2.into_bytes())),
+                ];
+                em.case((3000000 + idx) as u64, crate::store_ops::history_case(&ops, &dir));
+            }
             // random long histories over generated projects
             let n = share(if thorough { 3000 } else { 60 });
             for _ in 0..n {
@@ -790,7 +817,7 @@ pub fn run(suite: &str, thorough: bool, seed: u64, shard: usize, nshards: usize,
         }
         // C13: single-file perturbations of the rest of the project
         "perturb" => {
-            let n = share(if thorough { 6000 } else { 200 });
+            let n = share(if thorough { 6000 } else { 600 });
             for _ in 0..n {
                 let s = rng.next();
                 let mut r = Rng::new(s);
@@ -800,7 +827,14 @@ pub fn run(suite: &str, thorough: bool, seed: u64, shard: usize, nshards: usize,
                 let target = proj[t].0.clone();
                 let mut proj2 = proj.clone();
                 let how;
-                match r.below(6) {
+                let mut relayout = false;
+                match r.below(9) {
+                    6..=8 if proj.len() > 1 => {
+                        // lay the OTHER files out differently (other blanks, line breaks and comments, with
+                        // non-ASCII words in them): same documents, so nothing the target depends on changes
+                        relayout = true;
+                        how = "re-layout other files";
+                    }
                     0 => {
                         // add an unrelated file
                         let d = gen::gen_document(&mut r, &cfg);
@@ -865,8 +899,21 @@ pub fn run(suite: &str, thorough: bool, seed: u64, shard: usize, nshards: usize,
                         how = "rename other ids";
                     }
                 }
-                let f1 = render_project(&proj, LayoutStyle::Plain, &mut r.clone());
-                let f2 = render_project(&proj2, LayoutStyle::Plain, &mut r.clone());
+                // one layout seed per file; a third of the projects in a wild layout (comments with multi-byte
+                // words before tokens on the same line)
+                let style = if relayout || r.chance(1, 3) { LayoutStyle::Wild } else { LayoutStyle::Plain };
+                let base = r.next();
+                let lay = |proj: &[(String, doc::Doc)], other_seed: u64| -> Files {
+                    proj.iter()
+                        .map(|(id, d)| {
+                            let sd = if *id == target { base } else { base ^ other_seed };
+                            let mut lr = Rng::new(sd.wrapping_add(id.len() as u64));
+                            (id.clone(), doc::layout(&doc::render(d).toks, style, &mut lr).text)
+                        })
+                        .collect()
+                };
+                let f1 = lay(&proj, 0);
+                let f2 = lay(&proj2, if relayout { 0x9E37_79B9_7F4A_7C15 } else { 0 });
                 em.case(s, crate::store_ops::perturb_case(&f1, &f2, &target, how));
             }
         }
@@ -1139,6 +1186,31 @@ pub fn run(suite: &str, thorough: bool, seed: u64, shard: usize, nshards: usize,
                 };
                 em.case(sd, parse_case(&vec![("f".to_owned(), text)], vec![]));
             }
+            // constructs that start far into the file, with multi-byte text at every alignment before them:
+            // a reader that looks back over a fixed window (4 KiB … 128 KiB) lands inside a character
+            for (w, ch) in [(2usize, "é"), (3, "日"), (4, "🎉")] {
+                for target in [6 * 1024usize, 140 * 1024] {
+                    if (w + target / 1024) % nshards != shard {
+                        continue;
+                    }
+                    let mut text = String::from("package p;\ninterface I {\n");
+                    let mut k = 0usize;
+                    while text.len() < target {
+                        // a comment whose length varies, so that the members start at every residue modulo w
+                        text.push_str("    /* ");
+                        for _ in 0..(40 + k % 7) {
+                            text.push_str(ch);
+                        }
+                        text.push_str(&"x".repeat(k % w));
+                        text.push_str(" */\n    /** doc ");
+                        text.push_str(ch);
+                        text.push_str(&format!(" */ void m{}(in int a{});\n", k, k));
+                        k += 1;
+                    }
+                    text.push_str("}\n");
+                    em.case((w * 1000 + target) as u64, parse_case(&vec![("f".to_owned(), text)], vec![]));
+                }
+            }
         }
         // C14: one malformed member inside an otherwise well-formed item
         "garbage" => {
@@ -1287,7 +1359,11 @@ pub fn run(suite: &str, thorough: bool, seed: u64, shard: usize, nshards: usize,
         // C18: documentation comments in the six situations
         "docs" => {
             let n = share(if thorough { 12000 } else { 250 });
-            let words = ["hello", "Größe", "日本語", "🎉", "naïve", "wörld", "ok", "x1", "the", "value", "é", "中文字"];
+            // the last four begin or end with white space that is NOT decoration (only blank, tab, CR, LF and `*` are)
+            let words = [
+                "hello", "Größe", "日本語", "🎉", "naïve", "wörld", "ok", "x1", "the", "value", "é", "中文字",
+                "\u{3000}概要", "x\u{A0}", "\u{2003}em\u{2003}", "\u{0C}ff",
+            ];
             for _ in 0..n {
                 let sd = rng.next();
                 let mut r = Rng::new(sd);
